@@ -122,6 +122,16 @@ Theorem write_heap_terminates : forall is_print shortest h x,
   write_heap is_print shortest (length h) h [] x <> WFuel.
 Proof. exact write_heap_terminates_lemma. Qed.
 
+(* Sharing is not a cycle: whenever a heap value unfolds to a tree (no reference
+   is met again while it is being unfolded - shared sub-objects are fine), the
+   heap printer prints exactly the text of that tree, with no cycle marker; so
+   repr_roundtrip_partial applies to it and reading the text back gives the
+   unfolded tree. *)
+Theorem write_heap_shared_is_tree : forall is_print shortest fuel h path x v,
+  unfold fuel h path x = Some v ->
+  write_heap is_print shortest fuel h path x = WOk (write_value is_print shortest v).
+Proof. exact write_heap_tree_lemma. Qed.
+
 (* Non-vacuity: the hypotheses hold on concrete non-trivial inputs. *)
 Definition ascii_print (r : N) : bool := (32 <=? r) && (r <? 127).
 Example ascii_print_ok : forall r, ascii_print r = true -> r <> 13 /\ r <> 10.
@@ -138,6 +148,12 @@ Example sample_scalar : is_scalar 0x1F600 = true.
 Proof. reflexivity. Qed.
 Example no_quote_next_ok : no_quote_next [44; 32; 49].
 Proof. intros c l H. inversion H. discriminate. Qed.
+
+(* shared substructure: one list referenced twice by another, no cycle *)
+Definition shared_heap : heap := [OList [HLeaf (VInt 1)]; OList [HRef 0; HTuple [HRef 0]]].
+Example shared_heap_unfolds :
+  unfold 2 shared_heap [] (HRef 1) = Some (VList [VList [VInt 1]; VTuple [VList [VInt 1]]]).
+Proof. reflexivity. Qed.
 
 (* a list that contains itself and a dict that contains the list *)
 Definition cyc_heap : heap := [OList [HLeaf (VInt 1); HRef 0; HRef 1]; ODict [(HLeaf (VStr [107]), HRef 0)]].
